@@ -66,8 +66,9 @@ def main():
         if ok:
             d = os.path.join(VERIF, "seeded", sid)
             os.makedirs(d, exist_ok=True)
-            shutil.copy(patch, os.path.join(d, "patch.diff"))
-            shutil.copy(demo, os.path.join(d, "demo.py"))
+            for src, dst in ((patch, "patch.diff"), (demo, "demo.py")):
+                if os.path.abspath(src) != os.path.join(d, dst):
+                    shutil.copy(src, os.path.join(d, dst))
             with open(os.path.join(d, "meta.json"), "w") as f:
                 json.dump(meta, f, indent=1)
         else:
